@@ -393,11 +393,14 @@ func spelling(rng *rand.Rand, kind, dt string, raw any) (v any, lexical bool, ok
 			_, wasNat := raw.(float64)
 			return json.RawMessage(SpellFloat(rng, f)), !wasNat, true
 		}
-		s := strconv.FormatFloat(f, 'e', -1, 64)
-		if s == raw {
-			s = strconv.FormatFloat(f, 'E', 20, 64)
+		sp := doubleSpellings(f)
+		for tries := 0; tries < 10; tries++ {
+			c := sp[rng.Intn(len(sp))]
+			if c != raw {
+				return c, true, true
+			}
 		}
-		return s, true, true
+		return strconv.FormatFloat(f, 'E', 20, 64), true, true
 	}
 	return nil, false, false
 }
